@@ -93,6 +93,7 @@ func (r *histRun) storeRaced(i int, op M, race M) {
 			defer func() {
 				if p := recover(); p != nil {
 					inner["rc"] = "panic"
+					inner["errtext"] = fmt.Sprint(p)
 				}
 			}()
 			r.rawWrite(inner)
